@@ -22,6 +22,7 @@ its fix commit and the scenario + choice string that exhibited it on the impleme
 import YaclibModel.Proofs.FiberSyncWitness
 import YaclibModel.Proofs.FiberSyncBridge
 import YaclibModel.Extracted.Kernels
+import YaclibModel.Extracted.FiberAlias
 import YaclibModel.Model.Skeletons
 
 namespace Yaclib.Props.C18
@@ -132,6 +133,7 @@ theorem cv_wait_ends_by_notify {l : Label} {s' : State} (hs : Step s l s') {g : 
   | unlock f w h hh hw => cases w <;> simp [release, notifyM, upd_apply] at hg' <;> grind [wake]
   | cvWait f w h hh hw => cases w <;> simp [doCvWait, release, notifyM, upd_apply] at hg' <;> grind [wake]
   | cvWaitFor f w t d j h hh hw ht => cases w <;> simp [doCvWaitFor, release, notifyM, upd_apply] at hg' <;> grind [wake]
+  | cvWaitUntil f w t req j h hh hw ht => cases w <;> simp [doCvWaitUntil, release, notifyM, upd_apply] at hg' <;> grind [wake]
   | tryFail f h ho => exact absurd hg hg'
   | _ => simp [acquire, doLockPark, doTlfPark, doTlfTimeout, doTlfRepark, doCvTimeout, upd_apply] at hg' <;> grind
 
@@ -156,12 +158,14 @@ theorem timed_wait_deadline {f : Fid} {t d j : Nat} {w : Option Fid} {s' : State
     (Step s (.tlfPark f t d j) s' → s'.pc f = .tlfParked (t + d) (t + d + j)) ∧
     (Step s (.tlfRepark f j) s' → ∃ req, s.pc f = .tlfLocking req ∧ s'.pc f = .tlfParked req (req + j)) ∧
     (Step s (.cvWaitFor f w t d j) s' → s'.pc f = .cvTimed (t + d) (t + d + j)) ∧
+    (Step s (.cvWaitUntil f w t d j) s' → s'.pc f = .cvTimed d (d + j)) ∧
     (Step s (.sleepStart f t d) s' → s'.pc f = .sleeping (t + d)) := by
-  refine ⟨?_, ?_, ?_, ?_⟩ <;> intro hs
+  refine ⟨?_, ?_, ?_, ?_, ?_⟩ <;> intro hs
   · cases hs; simp [doTlfPark]
   · match hs with
     | .tlfRepark _ _ req _ _ hp _ => exact ⟨req, hp, by simp [doTlfRepark]⟩
   · cases hs; simp [doCvWaitFor]
+  · cases hs; simp [doCvWaitUntil]
   · cases hs; simp
 
 /-- everything the trace validator accepts is a behaviour the theorems speak about -/
@@ -795,5 +799,253 @@ theorem tie_FaultCondVar_wait : Extracted.Kernels.FaultCondVar_wait = Skeletons.
 theorem tie_FaultCondVar_wait_for : Extracted.Kernels.FaultCondVar_wait_for = Skeletons.FaultCondVar_wait_for := rfl
 theorem tie_FaultCondVar_notify_one : Extracted.Kernels.FaultCondVar_notify_one = Skeletons.FaultCondVar_notify_one := rfl
 theorem tie_FaultCondVar_notify_all : Extracted.Kernels.FaultCondVar_notify_all = Skeletons.FaultCondVar_notify_all := rfl
+theorem tie_FaultMutex_GetImpl : Extracted.Kernels.FaultMutex_GetImpl = Skeletons.FaultMutex_GetImpl := rfl
+theorem tie_FaultSharedTimedMutex_try_lock_until : Extracted.Kernels.FaultSharedTimedMutex_try_lock_until = Skeletons.FaultSharedTimedMutex_try_lock_until := rfl
+theorem tie_FaultSharedTimedMutex_try_lock_shared_until : Extracted.Kernels.FaultSharedTimedMutex_try_lock_shared_until = Skeletons.FaultSharedTimedMutex_try_lock_shared_until := rfl
+theorem tie_FaultCondVar_wait_pred : Extracted.Kernels.FaultCondVar_wait_pred = Skeletons.FaultCondVar_wait_pred := rfl
+theorem tie_FaultCondVar_wait_until : Extracted.Kernels.FaultCondVar_wait_until = Skeletons.FaultCondVar_wait_until := rfl
+theorem tie_FaultCondVar_From_lock : Extracted.Kernels.FaultCondVar_From_lock = Skeletons.FaultCondVar_From_lock := rfl
+theorem tie_FaultCondVar_From_pair : Extracted.Kernels.FaultCondVar_From_pair = Skeletons.FaultCondVar_From_pair := rfl
+theorem tie_FaultCondVar_CVStatusFrom_wait : Extracted.Kernels.FaultCondVar_CVStatusFrom_wait = Skeletons.FaultCondVar_CVStatusFrom_wait := rfl
+theorem tie_FaultCondVar_CVStatusFrom_cv : Extracted.Kernels.FaultCondVar_CVStatusFrom_cv = Skeletons.FaultCondVar_CVStatusFrom_cv := rfl
+theorem tie_FaultCondVarAny_notify_one : Extracted.Kernels.FaultCondVarAny_notify_one = Skeletons.FaultCondVarAny_notify_one := rfl
+theorem tie_FaultCondVarAny_notify_all : Extracted.Kernels.FaultCondVarAny_notify_all = Skeletons.FaultCondVarAny_notify_all := rfl
+theorem tie_FaultCondVarAny_wait : Extracted.Kernels.FaultCondVarAny_wait = Skeletons.FaultCondVarAny_wait := rfl
+theorem tie_FaultCondVarAny_wait_for : Extracted.Kernels.FaultCondVarAny_wait_for = Skeletons.FaultCondVarAny_wait_for := rfl
+theorem tie_FaultCondVarAny_wait_until : Extracted.Kernels.FaultCondVarAny_wait_until = Skeletons.FaultCondVarAny_wait_until := rfl
 
 end Yaclib.Props.C18.Tie
+
+/-! ## which std name is which type (T1, text): the `yaclib_std` alias headers and the class shells of the wrappers.
+`Extracted/FiberAlias.lean` is regenerated on every run from include/yaclib_std/{mutex,shared_mutex,condition_variable,
+thread,chrono,thread_local}, include/yaclib_std/detail/*.hpp and include/yaclib/fault/detail/{mutex,…,condition_variable_any}.hpp.
+The expected tables below are the ones the harness and the models were written against: under the FIBER backend every
+lock name is the injection wrapper of the same name around the fiber primitive of the same name, all three clocks are the
+scheduler's virtual clock, `thread` is the fiber thread, the thread-local macro is the per-fiber proxy, and
+`condition_variable_any` does not exist. -/
+namespace Yaclib.Props.C18.Alias
+open Yaclib Yaclib.Extracted.FiberAlias
+
+/-- every component selector follows the global backend switch, except the two that are not implemented -/
+def expectedSelectors : List (String × String × String) := [
+  ("mutex", "YACLIB_FAULT_CALL_ONCE", "0"),
+  ("mutex", "YACLIB_FAULT_MUTEX", "YACLIB_FAULT"),
+  ("mutex", "YACLIB_FAULT_RECURSIVE_MUTEX", "YACLIB_FAULT"),
+  ("mutex", "YACLIB_FAULT_RECURSIVE_TIMED_MUTEX", "YACLIB_FAULT"),
+  ("mutex", "YACLIB_FAULT_TIMED_MUTEX", "YACLIB_FAULT"),
+  ("shared_mutex", "YACLIB_FAULT_SHARED_MUTEX", "YACLIB_FAULT"),
+  ("shared_mutex", "YACLIB_FAULT_SHARED_TIMED_MUTEX", "YACLIB_FAULT"),
+  ("condition_variable", "YACLIB_FAULT_CONDITION_VARIABLE", "YACLIB_FAULT"),
+  ("condition_variable", "YACLIB_FAULT_CONDITION_VARIABLE_ANY", "YACLIB_FAULT"),
+  ("thread", "YACLIB_FAULT_JTHREAD", "0"),
+  ("thread", "YACLIB_FAULT_THIS_THREAD", "YACLIB_FAULT"),
+  ("thread", "YACLIB_FAULT_THREAD", "YACLIB_FAULT"),
+  ("chrono", "YACLIB_FAULT_CLOCK", "YACLIB_FAULT"),
+  ("thread_local", "YACLIB_FAULT_THREAD_LOCAL", "YACLIB_FAULT")
+]
+
+def expectedAliases : List (String × String × String × String × String) := [
+  ("mutex", "fiber", "alias", "mutex", "yaclib::detail::Mutex<yaclib::detail::fiber::Mutex>"),
+  ("mutex", "thread", "alias", "mutex", "yaclib::detail::Mutex<std::mutex>"),
+  ("mutex", "off", "alias", "mutex", "std::mutex"),
+  ("timed_mutex", "fiber", "alias", "timed_mutex", "yaclib::detail::TimedMutex<yaclib::detail::fiber::TimedMutex>"),
+  ("timed_mutex", "thread", "alias", "timed_mutex", "yaclib::detail::TimedMutex<std::timed_mutex>"),
+  ("timed_mutex", "off", "alias", "timed_mutex", "std::timed_mutex"),
+  ("recursive_mutex", "fiber", "alias", "recursive_mutex", "yaclib::detail::RecursiveMutex<yaclib::detail::fiber::RecursiveMutex>"),
+  ("recursive_mutex", "thread", "alias", "recursive_mutex", "yaclib::detail::RecursiveMutex<std::recursive_mutex>"),
+  ("recursive_mutex", "off", "alias", "recursive_mutex", "std::recursive_mutex"),
+  ("recursive_timed_mutex", "fiber", "alias", "recursive_timed_mutex", "yaclib::detail::RecursiveTimedMutex<yaclib::detail::fiber::RecursiveTimedMutex>"),
+  ("recursive_timed_mutex", "thread", "alias", "recursive_timed_mutex", "yaclib::detail::RecursiveTimedMutex<std::recursive_timed_mutex>"),
+  ("recursive_timed_mutex", "off", "alias", "recursive_timed_mutex", "std::recursive_timed_mutex"),
+  ("shared_mutex", "fiber", "alias", "shared_mutex", "yaclib::detail::SharedMutex<yaclib::detail::fiber::SharedMutex>"),
+  ("shared_mutex", "thread", "alias", "shared_mutex", "yaclib::detail::SharedMutex<std::shared_mutex>"),
+  ("shared_mutex", "off", "alias", "shared_mutex", "std::shared_mutex"),
+  ("shared_timed_mutex", "fiber", "alias", "shared_timed_mutex", "yaclib::detail::SharedTimedMutex<yaclib::detail::fiber::SharedTimedMutex>"),
+  ("shared_timed_mutex", "thread", "alias", "shared_timed_mutex", "yaclib::detail::SharedTimedMutex<std::shared_timed_mutex>"),
+  ("shared_timed_mutex", "off", "alias", "shared_timed_mutex", "std::shared_timed_mutex"),
+  ("condition_variable", "fiber", "alias", "condition_variable", "yaclib::detail::ConditionVariable<yaclib::detail::fiber::ConditionVariable>"),
+  ("condition_variable", "thread", "alias", "condition_variable", "yaclib::detail::ConditionVariable<std::condition_variable>"),
+  ("condition_variable", "off", "alias", "condition_variable", "std::condition_variable"),
+  ("condition_variable_any", "fiber", "absent", "-", "-"),
+  ("condition_variable_any", "thread", "alias", "condition_variable_any", "yaclib::detail::ConditionVariableAny<std::condition_variable_any>"),
+  ("condition_variable_any", "off", "alias", "condition_variable_any", "std::condition_variable_any"),
+  ("thread", "fiber", "alias", "thread", "yaclib::detail::fiber::Thread"),
+  ("thread", "thread", "alias", "thread", "std::thread"),
+  ("thread", "off", "alias", "thread", "std::thread"),
+  ("this_thread", "fiber", "function", "sleep_until", "const std::chrono::time_point<Clock, Duration>& sleep_time"),
+  ("this_thread", "fiber", "function", "sleep_for", "const std::chrono::duration<Rep, Period>& sleep_duration"),
+  ("this_thread", "fiber", "object", "yield", "yaclib::fault::Scheduler::RescheduleCurrent"),
+  ("this_thread", "fiber", "object", "get_id", "yaclib::fault::Scheduler::GetId"),
+  ("this_thread", "thread", "using", "sleep_for", "std::this_thread::sleep_for"),
+  ("this_thread", "thread", "using", "sleep_until", "std::this_thread::sleep_until"),
+  ("this_thread", "thread", "using", "yield", "std::this_thread::yield"),
+  ("this_thread", "thread", "using", "get_id", "std::this_thread::get_id"),
+  ("this_thread", "off", "using", "sleep_for", "std::this_thread::sleep_for"),
+  ("this_thread", "off", "using", "sleep_until", "std::this_thread::sleep_until"),
+  ("this_thread", "off", "using", "yield", "std::this_thread::yield"),
+  ("this_thread", "off", "using", "get_id", "std::this_thread::get_id"),
+  ("clock", "fiber", "alias", "steady_clock", "yaclib::detail::fiber::SystemClock"),
+  ("clock", "fiber", "alias", "high_resolution_clock", "yaclib::detail::fiber::SystemClock"),
+  ("clock", "fiber", "alias", "system_clock", "yaclib::detail::fiber::SystemClock"),
+  ("clock", "thread", "alias", "system_clock", "std::chrono::system_clock"),
+  ("clock", "thread", "alias", "steady_clock", "std::chrono::steady_clock"),
+  ("clock", "thread", "alias", "high_resolution_clock", "std::chrono::high_resolution_clock"),
+  ("clock", "off", "alias", "system_clock", "std::chrono::system_clock"),
+  ("clock", "off", "alias", "steady_clock", "std::chrono::steady_clock"),
+  ("clock", "off", "alias", "high_resolution_clock", "std::chrono::high_resolution_clock"),
+  ("thread_local", "fiber", "macro", "YACLIB_THREAD_LOCAL_PTR", "yaclib::detail::fiber::ThreadLocalPtrProxy<type>"),
+  ("thread_local", "thread", "macro", "YACLIB_THREAD_LOCAL_PTR", "thread_local type*"),
+  ("thread_local", "off", "macro", "YACLIB_THREAD_LOCAL_PTR", "thread_local type*")
+]
+
+def expectedWrappers : List (String × String × String × String) := [
+  ("mutex", "-", "include", "yaclib/fault/inject.hpp"),
+  ("mutex", "Mutex", "class", "protected Impl"),
+  ("mutex", "Mutex", "access", "public"),
+  ("mutex", "Mutex", "using", "Impl::Impl"),
+  ("mutex", "Mutex", "using[!_MSC_VER]", "Impl::native_handle"),
+  ("mutex", "Mutex", "method", "void lock()"),
+  ("mutex", "Mutex", "method", "bool try_lock()"),
+  ("mutex", "Mutex", "method", "void unlock()"),
+  ("mutex", "Mutex", "using", "impl_t = Impl"),
+  ("mutex", "Mutex", "method", "impl_t& GetImpl()"),
+  ("timed_mutex", "-", "include", "yaclib/fault/detail/mutex.hpp"),
+  ("timed_mutex", "-", "include", "yaclib/fault/inject.hpp"),
+  ("timed_mutex", "-", "include", "yaclib_std/chrono"),
+  ("timed_mutex", "TimedMutex", "class", "public Mutex<Impl>"),
+  ("timed_mutex", "TimedMutex", "using", "Base = Mutex<Impl>"),
+  ("timed_mutex", "TimedMutex", "access", "public"),
+  ("timed_mutex", "TimedMutex", "using", "Base::Base"),
+  ("timed_mutex", "TimedMutex", "method", "template <typename Rep, typename Period> bool try_lock_for(const std::chrono::duration<Rep, Period>& timeout_duration)"),
+  ("timed_mutex", "TimedMutex", "method", "template <typename Clock, typename Duration> bool try_lock_until(const std::chrono::time_point<Clock, Duration>& timeout_time)"),
+  ("recursive_mutex", "-", "include", "yaclib/fault/detail/mutex.hpp"),
+  ("recursive_mutex", "RecursiveMutex", "class", "public Mutex<Impl>"),
+  ("recursive_mutex", "RecursiveMutex", "using", "Base = Mutex<Impl>"),
+  ("recursive_mutex", "RecursiveMutex", "access", "public"),
+  ("recursive_mutex", "RecursiveMutex", "using", "Base::Base"),
+  ("recursive_timed_mutex", "-", "include", "yaclib/fault/detail/timed_mutex.hpp"),
+  ("recursive_timed_mutex", "RecursiveTimedMutex", "class", "public TimedMutex<Impl>"),
+  ("recursive_timed_mutex", "RecursiveTimedMutex", "using", "Base = TimedMutex<Impl>"),
+  ("recursive_timed_mutex", "RecursiveTimedMutex", "access", "public"),
+  ("recursive_timed_mutex", "RecursiveTimedMutex", "using", "Base::Base"),
+  ("shared_mutex", "-", "include", "yaclib/fault/detail/mutex.hpp"),
+  ("shared_mutex", "-", "include", "yaclib/fault/inject.hpp"),
+  ("shared_mutex", "SharedMutex", "class", "public Mutex<Impl>"),
+  ("shared_mutex", "SharedMutex", "using", "Base = Mutex<Impl>"),
+  ("shared_mutex", "SharedMutex", "access", "public"),
+  ("shared_mutex", "SharedMutex", "using", "Base::Base"),
+  ("shared_mutex", "SharedMutex", "method", "void lock_shared()"),
+  ("shared_mutex", "SharedMutex", "method", "bool try_lock_shared()"),
+  ("shared_mutex", "SharedMutex", "method", "void unlock_shared()"),
+  ("shared_timed_mutex", "-", "include", "yaclib/fault/detail/shared_mutex.hpp"),
+  ("shared_timed_mutex", "-", "include", "yaclib/fault/inject.hpp"),
+  ("shared_timed_mutex", "-", "include", "yaclib_std/chrono"),
+  ("shared_timed_mutex", "SharedTimedMutex", "class", "public SharedMutex<Impl>"),
+  ("shared_timed_mutex", "SharedTimedMutex", "using", "Base = SharedMutex<Impl>"),
+  ("shared_timed_mutex", "SharedTimedMutex", "access", "public"),
+  ("shared_timed_mutex", "SharedTimedMutex", "using", "Base::Base"),
+  ("shared_timed_mutex", "SharedTimedMutex", "method", "template <typename Rep, typename Period> bool try_lock_for(const std::chrono::duration<Rep, Period>& timeout_duration)"),
+  ("shared_timed_mutex", "SharedTimedMutex", "method", "template <typename Clock, typename Duration> bool try_lock_until(const std::chrono::time_point<Clock, Duration>& timeout_time)"),
+  ("shared_timed_mutex", "SharedTimedMutex", "method", "template <typename Rep, typename Period> bool try_lock_shared_for(const std::chrono::duration<Rep, Period>& timeout_duration)"),
+  ("shared_timed_mutex", "SharedTimedMutex", "method", "template <typename Clock, typename Duration> bool try_lock_shared_until(const std::chrono::time_point<Clock, Duration>& timeout_time)"),
+  ("condition_variable", "-", "include", "yaclib/fault/detail/wait_status.hpp"),
+  ("condition_variable", "-", "include", "yaclib/fault/inject.hpp"),
+  ("condition_variable", "-", "include", "yaclib/log.hpp"),
+  ("condition_variable", "-", "include", "condition_variable"),
+  ("condition_variable", "-", "include", "tuple"),
+  ("condition_variable", "-", "include", "yaclib_std/chrono"),
+  ("condition_variable", "-", "include", "yaclib_std/mutex"),
+  ("condition_variable", "-", "function", "constexpr std::cv_status CVStatusFrom(WaitStatus status)"),
+  ("condition_variable", "-", "function", "constexpr std::cv_status CVStatusFrom(std::cv_status status)"),
+  ("condition_variable", "ConditionVariable", "class", "private Impl"),
+  ("condition_variable", "ConditionVariable", "access", "public"),
+  ("condition_variable", "ConditionVariable", "using", "Impl::Impl"),
+  ("condition_variable", "ConditionVariable", "using[!_MSC_VER]", "Impl::native_handle"),
+  ("condition_variable", "ConditionVariable", "method", "void notify_one() noexcept"),
+  ("condition_variable", "ConditionVariable", "method", "void notify_all() noexcept"),
+  ("condition_variable", "ConditionVariable", "method", "void wait(std::unique_lock<yaclib_std::mutex>& lock)"),
+  ("condition_variable", "ConditionVariable", "method", "template <typename Predicate> void wait(std::unique_lock<yaclib_std::mutex>& lock, Predicate&& stop_waiting)"),
+  ("condition_variable", "ConditionVariable", "method", "template <typename Rep, typename Period> std::cv_status wait_for(std::unique_lock<yaclib_std::mutex>& lock, const std::chrono::duration<Rep, Period>& rel_time)"),
+  ("condition_variable", "ConditionVariable", "method", "template <typename Rep, typename Period, typename Predicate> bool wait_for(std::unique_lock<yaclib_std::mutex>& lock, const std::chrono::duration<Rep, Period>& rel_time, Predicate&& stop_waiting)"),
+  ("condition_variable", "ConditionVariable", "method", "template <typename Clock, typename Duration> std::cv_status wait_until(std::unique_lock<yaclib_std::mutex>& lock, const std::chrono::time_point<Clock, Duration>& timeout_time)"),
+  ("condition_variable", "ConditionVariable", "method", "template <typename Clock, typename Duration, typename Predicate> bool wait_until(std::unique_lock<yaclib_std::mutex>& lock, const std::chrono::time_point<Clock, Duration>& timeout_time, Predicate&& stop_waiting)"),
+  ("condition_variable", "ConditionVariable", "access", "private"),
+  ("condition_variable", "ConditionVariable", "method", "static auto From(std::unique_lock<yaclib_std::mutex>& lock)"),
+  ("condition_variable", "ConditionVariable", "method", "static auto From(yaclib_std::mutex* mutex, std::unique_lock<yaclib_std::mutex::impl_t>& lock_impl)"),
+  ("condition_variable_any", "-", "include", "yaclib/fault/inject.hpp"),
+  ("condition_variable_any", "-", "include", "yaclib_std/chrono"),
+  ("condition_variable_any", "-", "include", "yaclib_std/mutex"),
+  ("condition_variable_any", "ConditionVariableAny", "class", "private Impl"),
+  ("condition_variable_any", "ConditionVariableAny", "access", "public"),
+  ("condition_variable_any", "ConditionVariableAny", "using", "Impl::Impl"),
+  ("condition_variable_any", "ConditionVariableAny", "method", "void notify_one() noexcept"),
+  ("condition_variable_any", "ConditionVariableAny", "method", "void notify_all() noexcept"),
+  ("condition_variable_any", "ConditionVariableAny", "method", "template <typename Lock> void wait(Lock& lock)"),
+  ("condition_variable_any", "ConditionVariableAny", "method", "template <typename Lock, typename Predicate> void wait(Lock& lock, Predicate&& stop_waiting)"),
+  ("condition_variable_any", "ConditionVariableAny", "method", "template <typename Lock, typename Rep, typename Period> std::cv_status wait_for(Lock& lock, const std::chrono::duration<Rep, Period>& rel_time)"),
+  ("condition_variable_any", "ConditionVariableAny", "method", "template <typename Lock, typename Rep, typename Period, typename Predicate> bool wait_for(Lock& lock, const std::chrono::duration<Rep, Period>& rel_time, Predicate&& stop_waiting)"),
+  ("condition_variable_any", "ConditionVariableAny", "method", "template <typename Lock, typename Clock, typename Duration> std::cv_status wait_until(Lock& lock, const std::chrono::time_point<Clock, Duration>& timeout_time)"),
+  ("condition_variable_any", "ConditionVariableAny", "method", "template <typename Lock, typename Clock, typename Duration, typename Predicate> bool wait_until(Lock& lock, const std::chrono::time_point<Clock, Duration>& timeout_time, Predicate&& stop_waiting)")
+]
+
+theorem selector_table_expected : selectorTable = expectedSelectors := rfl
+theorem alias_table_expected : aliasTable = expectedAliases := rfl
+theorem wrapper_table_expected : wrapperTable = expectedWrappers := rfl
+
+/-- what a name of a detail header stands for under a backend (none: not declared there) -/
+def target (hdr backend name : String) : Option String :=
+  (aliasTable.find? fun r => r.1 == hdr && r.2.1 == backend && r.2.2.2.1 == name).map (·.2.2.2.2)
+
+/-- the wrapper W<I> -/
+def wrap (w i : String) : String := "yaclib::detail::" ++ w ++ "<" ++ i ++ ">"
+
+/-- FIBER: each lock / condition-variable name is the wrapper of the same name around the fiber primitive of the same name -/
+theorem fiber_locks_are_their_own_wrappers :
+    ∀ p ∈ [("mutex", "Mutex"), ("timed_mutex", "TimedMutex"), ("recursive_mutex", "RecursiveMutex"),
+           ("recursive_timed_mutex", "RecursiveTimedMutex"), ("shared_mutex", "SharedMutex"),
+           ("shared_timed_mutex", "SharedTimedMutex"), ("condition_variable", "ConditionVariable")],
+      target p.1 "fiber" p.1 = some (wrap p.2 ("yaclib::detail::fiber::" ++ p.2)) := by decide
+
+/-- THREAD: the same wrappers around the std types; OFF: the std types themselves -/
+theorem thread_and_off_locks :
+    ∀ p ∈ [("mutex", "Mutex"), ("timed_mutex", "TimedMutex"), ("recursive_mutex", "RecursiveMutex"),
+           ("recursive_timed_mutex", "RecursiveTimedMutex"), ("shared_mutex", "SharedMutex"),
+           ("shared_timed_mutex", "SharedTimedMutex"), ("condition_variable", "ConditionVariable"),
+           ("condition_variable_any", "ConditionVariableAny")],
+      target p.1 "thread" p.1 = some (wrap p.2 ("std::" ++ p.1)) ∧ target p.1 "off" p.1 = some ("std::" ++ p.1) := by decide
+
+/-- FIBER: all three clocks are the scheduler's virtual clock (so a deadline of any of them is a virtual time) -/
+theorem fiber_clocks_are_virtual :
+    ∀ c ∈ ["steady_clock", "system_clock", "high_resolution_clock"],
+      target "clock" "fiber" c = some "yaclib::detail::fiber::SystemClock" := by decide
+
+/-- FIBER: thread is the fiber thread, the thread-local macro the per-fiber proxy, yield / get_id the scheduler's -/
+theorem fiber_thread_and_tls :
+    target "thread" "fiber" "thread" = some "yaclib::detail::fiber::Thread"
+    ∧ target "thread_local" "fiber" "YACLIB_THREAD_LOCAL_PTR" = some "yaclib::detail::fiber::ThreadLocalPtrProxy<type>"
+    ∧ target "this_thread" "fiber" "yield" = some "yaclib::fault::Scheduler::RescheduleCurrent"
+    ∧ target "this_thread" "fiber" "get_id" = some "yaclib::fault::Scheduler::GetId" := by decide
+
+/-- FIBER: `condition_variable_any` is not declared (the harness cannot name it; its wrapper is tied by text and skeleton only) -/
+theorem fiber_has_no_condition_variable_any :
+    ("condition_variable_any", "fiber", "absent", "-", "-") ∈ aliasTable
+    ∧ target "condition_variable_any" "fiber" "condition_variable_any" = none := by decide
+
+/-- the methods a wrapper class declares itself -/
+def methodsOf (cls : String) : List String :=
+  (wrapperTable.filter fun r => r.2.1 == cls && r.2.2.1 == "method").map (·.2.2.2)
+
+/-- the bases of a wrapper class -/
+def basesOf (cls : String) : List String :=
+  (wrapperTable.filter fun r => r.2.1 == cls && r.2.2.1 == "class").map (·.2.2.2)
+
+/-- the inheritance chain the harness relies on: timed ⊂ plain, recursive = plain, shared-timed ⊂ shared ⊂ plain;
+    the recursive wrappers add no member of their own (so the ties of Mutex / TimedMutex cover them) -/
+theorem wrapper_inheritance :
+    basesOf "Mutex" = ["protected Impl"] ∧ basesOf "TimedMutex" = ["public Mutex<Impl>"]
+    ∧ basesOf "RecursiveMutex" = ["public Mutex<Impl>"] ∧ basesOf "RecursiveTimedMutex" = ["public TimedMutex<Impl>"]
+    ∧ basesOf "SharedMutex" = ["public Mutex<Impl>"] ∧ basesOf "SharedTimedMutex" = ["public SharedMutex<Impl>"]
+    ∧ basesOf "ConditionVariable" = ["private Impl"] ∧ basesOf "ConditionVariableAny" = ["private Impl"]
+    ∧ methodsOf "RecursiveMutex" = [] ∧ methodsOf "RecursiveTimedMutex" = [] := by decide
+
+end Yaclib.Props.C18.Alias
